@@ -18,7 +18,6 @@ pub assume_specification<T: Clone, A: std::alloc::Allocator> [std::rc::Rc::<T, A
     ensures o == *r;
 pub assume_specification<T> [std::mem::replace] (dest: &mut T, src: T) -> (r: T)
     ensures r == *old(dest), *final(dest) == src;
-
 pub assume_specification<T, U, F: FnOnce(T) -> U> [std::option::Option::<T>::map_or] (o: Option<T>, default: U, f: F) -> (r: U)
     requires o is Some ==> f.requires((o->0,)),
     ensures match o { None => r == default, Some(x) => f.ensures((x,), r) };
@@ -54,7 +53,15 @@ pub enum Node<V: Clone> {
 
 pub type Tree<V> = Option<Rc<Node<V>>>;
 
+pub const DELTA: usize = 3;
+pub const GAMMA: usize = 2;
+
 // ---------------- specification ----------------
+pub open spec fn is_data<V: Clone>(t: Tree<V>) -> bool { t is Some && *(t->0) is Data }
+pub open spec fn dn<V: Clone>(t: Tree<V>) -> DataNode<V> { (*(t->0))->Data_0 }
+pub open spec fn lft<V: Clone>(t: Tree<V>) -> Tree<V> { if is_data(t) { dn(t).left } else { None } }
+pub open spec fn rgt<V: Clone>(t: Tree<V>) -> Tree<V> { if is_data(t) { dn(t).right } else { None } }
+
 pub open spec fn nsz<V: Clone>(t: Tree<V>) -> nat
     decreases t
 {
@@ -81,7 +88,9 @@ pub open spec fn bst<V: Clone>(t: Tree<V>, lo: int, hi: int) -> bool
     }
 }
 
-pub open spec fn balanced_sizes(l: nat, r: nat) -> bool {
+pub open spec fn tb<V: Clone>(t: Tree<V>) -> bool { exists|lo: int, hi: int| #[trigger] bst(t, lo, hi) }
+
+pub open spec fn wbal(l: nat, r: nat) -> bool {
     l + r < 2 || ((r + 1) <= 3 * (l + 1) && (l + 1) <= 3 * (r + 1))
 }
 
@@ -91,7 +100,7 @@ pub open spec fn bal<V: Clone>(t: Tree<V>) -> bool
     match t {
         None => true,
         Some(rc) => match *rc {
-            Node::Data(d) => balanced_sizes(nsz(d.left), nsz(d.right)) && bal(d.left) && bal(d.right),
+            Node::Data(d) => wbal(nsz(d.left), nsz(d.right)) && bal(d.left) && bal(d.right),
             Node::Mapping(_) => false,
         },
     }
@@ -137,112 +146,43 @@ pub proof fn lemma_bst_widen<V: Clone>(t: Tree<V>, lo: int, hi: int, lo2: int, h
     }
 }
 
+/// keys are u32, so any bst is a bst within (-1, 2^32)
+pub proof fn lemma_bst_u32<V: Clone>(t: Tree<V>, lo: int, hi: int)
+    requires bst(t, lo, hi)
+    ensures bst(t, if lo < -1 { -1 } else { lo }, if hi > 0x1_0000_0000 { 0x1_0000_0000 } else { hi }), nsz(t) <= 0x1_0000_0000
+    decreases t
+{
+    let lo2 = if lo < -1 { -1 } else { lo }; let hi2: int = if hi > 0x1_0000_0000 { 0x1_0000_0000 } else { hi };
+    match t {
+        None => {},
+        Some(rc) => match *rc {
+            Node::Data(d) => {
+                lemma_bst_u32(d.left, lo, d.key as int); lemma_bst_u32(d.right, d.key as int, hi);
+                lemma_bst_widen(d.left, if lo < -1 { -1 } else { lo }, d.key as int, lo2, d.key as int);
+                lemma_bst_widen(d.right, d.key as int, if hi > 0x1_0000_0000 { 0x1_0000_0000 } else { hi }, d.key as int, hi2);
+            },
+            Node::Mapping(_) => {},
+        },
+    }
+    lemma_size_bound(t, lo2, hi2);
+}
+
 pub proof fn lemma_view_dom<V: Clone>(t: Tree<V>, lo: int, hi: int)
     requires bst(t, lo, hi)
-    ensures forall|k: u32| view(t).contains_key(k) ==> lo < k < hi,
+    ensures forall|k: u32| #[trigger] view(t).contains_key(k) ==> lo < k < hi,
     decreases t
 {
     match t {
         None => {},
         Some(rc) => match *rc {
-            Node::Data(d) => { lemma_view_dom(d.left, lo, d.key as int); lemma_view_dom(d.right, d.key as int, hi); },
+            Node::Data(d) => {
+                lemma_view_dom(d.left, lo, d.key as int); lemma_view_dom(d.right, d.key as int, hi);
+                assert forall|k: u32| #[trigger] view(t).contains_key(k) implies lo < k < hi by {
+                    if k != d.key { assert(view(d.left).contains_key(k) || view(d.right).contains_key(k)); }
+                }
+            },
             Node::Mapping(_) => {},
         },
     }
 }
 
-impl<V: Clone> DataNode<V> {
-    fn update_size_internal(&mut self)
-        requires exists|lo: int, hi: int| -1 <= lo && hi <= 0x1_0000_0000 && #[trigger] bst(old(self).left, lo, hi) ,
-                 exists|lo: int, hi: int| -1 <= lo && hi <= 0x1_0000_0000 && #[trigger] bst(old(self).right, lo, hi),
-        ensures final(self).size == 1 + nsz(old(self).left) + nsz(old(self).right),
-            final(self).left == old(self).left, final(self).right == old(self).right,
-            final(self).key == old(self).key, final(self).value == old(self).value,
-    {
-        proof {
-            let (lo, hi) = choose|lo: int, hi: int| -1 <= lo && hi <= 0x1_0000_0000 && #[trigger] bst(self.left, lo, hi);
-            lemma_size_bound(self.left, lo, hi);
-            let (lo2, hi2) = choose|lo: int, hi: int| -1 <= lo && hi <= 0x1_0000_0000 && #[trigger] bst(self.right, lo, hi);
-            lemma_size_bound(self.right, lo2, hi2);
-        }
-        self.size = 1 + Node::size(&self.left) + Node::size(&self.right);
-    }
-}
-
-impl<V: Clone> Node<V> {
-    fn size(node: &Option<Rc<Node<V>>>) -> (r: usize)
-        requires exists|lo: int, hi: int| #[trigger] bst(*node, lo, hi),
-        ensures r == nsz(*node),
-        decreases *node,
-    {
-        node.as_ref().map_or(0, |n: &Rc<Node<V>>| -> (r: usize)
-            requires **n is Data, ensures r == (**n)->Data_0.size,
-          { match n.as_ref() {
-            Node::Data(data_node) => data_node.size,
-            Node::Mapping(mapping_node) => Self::size(&mapping_node.child),
-        } })
-    }
-}
-
-
-pub open spec fn node_left<V: Clone>(t: Tree<V>) -> Tree<V> {
-    match t { Some(rc) => match *rc { Node::Data(d) => d.left, _ => None }, None => None }
-}
-pub open spec fn node_right<V: Clone>(t: Tree<V>) -> Tree<V> {
-    match t { Some(rc) => match *rc { Node::Data(d) => d.right, _ => None }, None => None }
-}
-impl<V: Clone> Node<V> {
-    /// Rotate left around a data node. For mapping nodes, this is a no-op.
-    fn rotate_left(mut node: Rc<Node<V>>, Ghost(lo): Ghost<int>, Ghost(hi): Ghost<int>) -> (res: Rc<Node<V>>)
-        requires -1 <= lo, hi <= 0x1_0000_0000, bst(Some(node), lo, hi),
-            node_right(Some(node)) is Some,
-        ensures bst(Some(res), lo, hi), view(Some(res)) == view(Some(node)), nsz(Some(res)) == nsz(Some(node)),
-            // shape: res = Node(rkey, Node(key, l, rl), rr)
-            node_right(Some(res)) == node_right(node_right(Some(node))),
-            node_left(node_left(Some(res))) == node_left(Some(node)),
-            node_right(node_left(Some(res))) == node_left(node_right(Some(node))),
-    {
-        // Only rotate data nodes
-        let is_data = matches!(node.as_ref(), Node::Data(_));
-        if !is_data {
-            return node;
-        }
-
-        let node_mut = Rc::make_mut(&mut node);
-        let data_node = match node_mut {
-            Node::Data(d) => d,
-            Node::Mapping(_) => return node,
-        };
-
-        let mut right = match data_node.right.take() {
-            Some(r) => r,
-            None => return node, // Can't rotate without right child
-        };
-
-        // Check if right child is a data node
-        let right_is_data = matches!(right.as_ref(), Node::Data(_));
-        if !right_is_data {
-            // Put right back and return without rotating
-            data_node.right = Some(right);
-            return node;
-        }
-
-        let right_mut = Rc::make_mut(&mut right);
-        let right_data = match right_mut {
-            Node::Data(d) => d,
-            Node::Mapping(_) => {
-                data_node.right = Some(right);
-                return node;
-            }
-        };
-
-        data_node.right = right_data.left.take();
-        data_node.update_size_internal();
-        right_data.left = Some(node);
-        right_data.update_size_internal();
-
-        right
-    }
-}
-} // verus!
-fn main() {}
